@@ -5,7 +5,7 @@ Units
                       order / batching for small scopes, random beyond) vs Model/MultiRun.v and vs the
                       sequential oracle
   multi_run/threads   the same with the real ThreadPoolExecutor and gated per-run functions
-  (the Context units are added by c15_ctx)
+  ctx_race/*, context_multi_run/os_schedule   see c15_ctx (the Context code shared by the workers)
 """
 import contextlib
 import io
